@@ -44,6 +44,16 @@ pub fn slice_single<T>(s: &[T]) -> (r: Option<&T>)
 
 pub assume_specification<T> [Option::<T>::or] (a: Option<T>, b: Option<T>) -> (r: Option<T>)
     ensures r == (if a is Some { a } else { b });
+/// std contract of `Option::get_or_insert_with`: the slot keeps its value or receives `f()`, and the returned
+/// reference is the slot's content (used by the pinned `Attributes::doc`; kept so that code using it stays decidable)
+#[verifier::allow(undeclared_external_trait)]
+pub assume_specification<T, F: FnOnce() -> T + core::marker::Destruct> [Option::<T>::get_or_insert_with] (o: &mut Option<T>, f: F) -> (r: &mut T)
+    requires *old(o) is None ==> f.requires(()),
+    ensures
+        *old(o) is Some ==> *r == (*old(o))->0,
+        *old(o) is None ==> f.ensures((), *r),
+        *final(o) == Some(*final(r)),
+;
 pub assume_specification<T> [Option::<Option<T>>::flatten] (a: Option<Option<T>>) -> (r: Option<T>)
     ensures r == (match a { Some(x) => x, None => None });
 
